@@ -76,6 +76,26 @@ CHECKS = {
              "two blocks formatted together equal the blocks formatted separately.",
         note="Trusted: the protected-span regexes in checks/c08.py (deliberately independent of the repository's patterns).",
         ref="DESIGN.md §2 C08"),
+    "C09": dict(
+        level="exploration",
+        technique="exhaustive enumeration of all short strings through ellipses(); bounded-exhaustive document enumeration with an option-on/option-off relation",
+        text="Function level: every string of length <= 7 (quick) / 8 (thorough) over {letter, capital, space, dot, quote, comma, newline, dash}: "
+             "idempotent, no ellipsis invented, and mapping the ellipsis back to three dots gives the input up to the spaces around three-dot runs. "
+             "Document level: every token sequence over dot/typography/inline/tag tokens in paragraphs, headings, table cells and containers x widths "
+             "x modes x other options: same text (after mapping back, ignoring whitespace), same literal spans, same structure, and a second pass changes nothing.",
+        note="Trusted: Reader A and the span extractor for the 'same structure / same spans' clauses.",
+        ref="DESIGN.md §2 C09"),
+    "C10": dict(
+        level="exploration",
+        technique="bounded-exhaustive enumeration of lists and headings x modes; reference-model comparison on the re-parsed trees",
+        text="Every list of 1-3 (quick) / 1-4 (thorough) items over a 10-item alphabet (single paragraph, empty, two paragraphs, code, quote, nested "
+             "tight/loose list, wrapped, heading, nested-first) x every tight/blank gap pattern x bullet/ordered x 7 contexts (quote, footnote, list, "
+             "neighbours) is formatted in all three list-spacing modes: loose makes every multi-item list loose, tight makes every list of single-block "
+             "items tight, preserve keeps each list's tightness, and the three outputs are equal up to blank lines and in structure. Every heading "
+             "(5 forms x every sequence of up to 3 emphasis tokens x 4 contexts) is formatted with and without cleanups: the re-parsed tree must equal "
+             "a 10-line reference unbolding of the cleanups-off tree and only heading lines may differ.",
+        note="Trusted: Reader A (Marko) for tightness and structure; the reference unbold in checks/c10.py.",
+        ref="DESIGN.md §2 C10"),
     "C05": dict(
         level="model_checking",
         technique="explicit-state model of the greedy filler, exhaustive trace enumeration + replay of every trace against the implementation",
